@@ -25,18 +25,37 @@ Monitors
                                         focus_fixed_sampling, unfocus_fixed_sampling, angular_spectrum; 2-D input passes through
       add_jones_propagation             (exercised last, originals restored) patched module functions == direct adapter form
       apply_polarization_optic          == optic * field[..., None, None]
+
+Hardening pass (blind-spot classes of HARDENING.md)
+  A repeat / aliasing   every constructor called again after the caller edited the array a previous call returned; the same theta
+                        grid / retardance array / Jones batch objects through the same and other routines twice (later call
+                        judged); Jones batches as C / F / strided / axes-moved arrays; theta as numpy scalars, 0-d and float32
+                        arrays, shape= as list / int array
+  B histories           add_jones_propagation switched on in steps (one step history per shard: all at once and again, two
+                        steps, one routine at a time, subset / same subset / rest / default, overlapping subsets, tuple and set
+                        arguments, empty list then default); after each step every routine named so far must be polarisation-
+                        aware (judged by behaviour only, against the saved originals); prysm.propagation restored afterwards
+  C configuration       the whole law suite (reduced) under config.precision = 32 (complex64 elements; complex128 inputs too),
+                        then under precision 64 at full tolerance (keys carry /precision=32, /after-precision-32); complex64 and
+                        float32 inputs under precision 64
+  D regimes             long call histories: > 2600 (thorough 30000) Jones-to-Mueller conversions and constructor calls under
+                        precision 64 and > 700 (10000) under precision 32 in one process, the last calls judged
 """
 import math
 
 import numpy as np
 
 from ..contracts import attach, detach_all, quiet
+from ..core import Ctx
 
 RULE = ('angles / retardances uniform over [-2 pi, 2 pi] plus the special values 0, +-pi/2, +-pi, 2 pi; diattenuation in [0, 1] '
         'incl. 0 and 1; vortex charges -3..6 and half-integers, theta grids 0-d, 1-d, 1x1 .. 16x16 (square and not); random '
         'complex 2x2 matrices and batches with leading shapes of 1 to 3 dimensions; propagation grids 2..16 samples, every '
         'parity combination.  Special values and smallest shapes first.  A case is non-trivial unless the element is the '
-        'identity by construction (all angles and retardances zero); distinct = distinct descriptor')
+        'identity by construction (all angles and retardances zero); distinct = distinct descriptor.  Hardening workloads: '
+        'repeat (7 leading shapes x 4 memory layouts, 9 constructors, every consumer of a Jones batch twice), configuration '
+        '(reduced suite under precision 32 then 64), long histories (thousands of calls per process), step histories of '
+        'add_jones_propagation (8 histories, one per shard)')
 ASSUMPTIONS = ['numpy matmul / kron / einsum are the reference linear algebra',
                'only the batched forms the API supports are exercised: shape= with scalar parameters, array retardance with '
                'shape=retardance.shape for linear_retarder, theta arrays for jones_rotation_matrix(shape=theta.shape) and the '
@@ -44,15 +63,29 @@ ASSUMPTIONS = ['numpy matmul / kron / einsum are the reference linear algebra',
                'outside the workload',
                'the sign convention of Stokes S3 is not fixed by the statement: the Mueller reference accepts both',
                'theta grids handed to vector_vortex_retarder are floating-point arrays',
-               'Jones *vector* helpers (linear_pol_vector is used for Malus only; circular_pol_vector) are not part of the property']
+               'Jones *vector* helpers (linear_pol_vector is used for Malus only; circular_pol_vector) are not part of the property',
+               'the routines are deterministic functions of the values of their arguments; an array a routine returned belongs to '
+               'the caller (editing it must not change later results)',
+               'complex64 threshold 1e-3 (x scale) for every call made while config.precision is 32 and for calls that are handed '
+               'single-precision data; measured round-off 1e-7..6e-7',
+               'add_jones_propagation(names): afterwards every routine in names accepts a (..., 2, 2) Jones field and propagates it '
+               'component by component, and still handles a 2-D field as before; judged by behaviour against the functions saved '
+               'before the first step (whether and how the module object was replaced is not part of the statement)']
 REQUIRED = ['jones_rotation_matrix.proper-rotation', 'linear_retarder.unitary', 'vector_vortex_retarder.unitary', 'linear_retarder.retardance',
             'vector_vortex_retarder.input-unchanged', 'rotation.group', 'retarder.group', 'element.rotation-conjugation',
             'polarizer.idempotent', 'polarizer.malus', 'diattenuator.algebra', 'element.batched', 'vortex.reference', 'vortex.batched',
             'mueller.multiplicative', 'mueller.orthogonal', 'mueller.reference', 'mueller.batched', 'kron.eq-numpy',
-            'pauli.reconstruct', 'adapter.componentwise', 'add_jones_propagation.eq-direct', 'apply_polarization_optic.elementwise']
+            'pauli.reconstruct', 'adapter.componentwise', 'add_jones_propagation.eq-direct', 'apply_polarization_optic.elementwise',
+            'add_jones_propagation.later-step', 'repeat.cases', 'repeat.result-owned-by-caller', 'repeat.result-survives-later-call', 'repeat.same-args',
+            'repeat.argument-forms', 'precision32.suite', 'precision32-then-64.suite', 'long-history.cases', 'long-history.mueller',
+            'long-history.elements']
 
 CTX = None
 TOL = 1e-12
+TOL64 = 1e-12
+# complex64 (prysm.conf.config.precision = 32: every constructor returns complex64; or single-precision inputs): measured
+# round-off of the law residuals 1e-7 .. 6e-7 (x scale); threshold more than 3 decades above
+TOL32 = 1e-3
 I2 = np.eye(2)
 PROP_FUNCS = ['focus', 'unfocus', 'focus_fixed_sampling', 'unfocus_fixed_sampling', 'angular_spectrum']
 
@@ -102,6 +135,14 @@ def _check_unchanged(fn, token, extra_desc=None):
                           before=old if old.size <= 8 else old.ravel()[:8], after=live if live.size <= 8 else live.ravel()[:8])
 
 
+def _tol_for(args, kwargs):
+    """Single-precision data (a float32 angle / grid, complex64 matrices) carry 6e-8: such calls get the complex64 threshold."""
+    for v in list(args) + list(kwargs.values()):
+        if getattr(v, 'dtype', None) in (np.float32, np.complex64, np.float16):
+            return max(TOL, TOL32)
+    return TOL
+
+
 def _post_plain(fn):
     def post(token, args, kwargs, result):
         _check_unchanged(fn, token)
@@ -119,7 +160,8 @@ def _post_unitary(fn, names):
         CTX.observe(f'{fn}.unitary')
         J = np.asarray(result)
         err = maxabs(H(J) @ J - I2)
-        if not err <= TOL:
+        tol = _tol_for(args, kwargs)
+        if not err <= tol:
             desc = {'fn': fn, 'class': 'contract', 'shape': list(J.shape)}
             old = {id(live): before for _, _, live, before in token or ()}    # values as passed (the call may have altered them)
             for k, v in a.items():
@@ -151,7 +193,7 @@ def _post_unitary(fn, names):
             err = maxabs(tr * tr / det - (2 + 2 * np.cos(d)))
         except ValueError:      # shapes that do not broadcast: reported by the batched monitors
             return
-        if not err <= 4 * TOL:
+        if not err <= 4 * tol:
             CTX.violation(f'C20/{fn}/retardance-not-delta', f'{fn}: phase difference between the two eigen-polarisations is not the retardance '
                           '(tr(J)^2/det(J) != 2 + 2 cos(retardance))', {'fn': fn, 'class': 'contract', 'retardance': d if d.size <= 4 else 'array'},
                           err=err)
@@ -164,7 +206,8 @@ def _post_rotation(token, args, kwargs, result):
     Rm = np.asarray(result)
     err = maxabs(np.swapaxes(Rm, -1, -2) @ Rm - I2)
     det = Rm[..., 0, 0] * Rm[..., 1, 1] - Rm[..., 0, 1] * Rm[..., 1, 0]
-    if not (err <= TOL and maxabs(det - 1) <= TOL and maxabs(np.imag(Rm)) == 0):
+    tol = _tol_for(args, kwargs)
+    if not (err <= tol and maxabs(det - 1) <= tol and maxabs(np.imag(Rm)) == 0):
         th = args[0] if args else kwargs.get('theta')
         CTX.violation('C20/jones_rotation_matrix/not-a-rotation', 'jones_rotation_matrix is not a proper real rotation (R R^T != I or det != 1)',
                       {'fn': 'jones_rotation_matrix', 'theta': th if np.size(th) <= 4 else 'array', 'class': 'contract'}, err=err)
@@ -237,7 +280,8 @@ def angle(g, i=None):
     return float(g.uniform(-2 * math.pi, 2 * math.pi))
 
 
-def law(ctx, monitor, got, ref, key, what, desc, scale=None, tol=TOL):
+def law(ctx, monitor, got, ref, key, what, desc, scale=None, tol=None):
+    tol = TOL if tol is None else tol          # the module-level tolerance is read at call time (configuration workloads swap it)
     ref = np.asarray(ref)
     sc = max(1.0, maxabs(ref)) if scale is None else scale
     return ctx.close(monitor, got, ref, key, what, desc, rtol=tol, scale=sc)
@@ -251,7 +295,10 @@ def run(ctx):
     saved = {k: getattr(propagation, k) for k in PROP_FUNCS}
     install()
     try:
+        _run_precision(ctx)          # first: its 32-bit pass must be the first use of every routine in this process
         _run(ctx)
+        _run_repeat(ctx)
+        _run_long_history(ctx)
         _run_monkeypatch(ctx, saved)
     finally:
         for k, v in saved.items():
@@ -259,13 +306,17 @@ def run(ctx):
         detach_all()
 
 
-def _run(ctx):
+def _run(ctx, frac=1.0, label='c20', wl_suffix=''):
+    """The law suite.  frac scales every count (the configuration workloads run a reduced copy), label seeds the generator."""
     from prysm.x import polarization as pol
     from prysm import propagation
-    rng = ctx.rng('c20')
+    rng = ctx.rng(label)
+
+    def cnt(q, t):
+        return max(1, int(round(ctx.pick(q, t) * frac)))
 
     # --- 1. rotation matrix, retarders, polarisers, diattenuators (scalar forms) ---------------------------
-    n1 = ctx.share(ctx.pick(1200, 24000))
+    n1 = max(ctx.share(cnt(1200, 250000)), 1)
     for it in range(n1):
         i = it if ctx.shard == 0 else None      # special values first on shard 0
         th, th2, d1, d2 = angle(rng, i), angle(rng), angle(rng, i), angle(rng)
@@ -329,7 +380,7 @@ def _run(ctx):
 
     # --- 2. batched element forms ----------------------------------------------------------------------------
     shapes = [(1,), (3,), (1, 1), (2, 3), (4, 1), (2, 1, 3), (16, 16)]
-    n2 = ctx.pick(6, 60)
+    n2 = cnt(6, 400)
     k = -1
     for rep in range(n2):
         for shp in shapes:
@@ -370,7 +421,7 @@ def _run(ctx):
     grids = [(), (1,), (5,), (1, 1), (2, 2), (3, 4), (4, 3), (7, 7), (16, 16), (2, 3, 2)]
     rets = [math.pi / 2, math.pi, 1.0, 0.0, -math.pi, 2 * math.pi]
     k = -1
-    nv = ctx.pick(3, 40)
+    nv = cnt(3, 250)
     for rep in range(nv):
         for shp in grids:
             for ci, charge in enumerate(charges):
@@ -408,7 +459,7 @@ def _run(ctx):
 
     # --- 4. Mueller / Kronecker / Pauli on random complex matrices ----------------------------------------------------
     leads = [(), (1,), (4,), (1, 1), (2, 3), (3, 1), (2, 1, 3), (2, 2, 2)]
-    nm_ = ctx.pick(40, 600)
+    nm_ = cnt(40, 6000)
     k = -1
     for rep in range(nm_):
         for lead in leads:
@@ -461,9 +512,9 @@ def _run(ctx):
     # --- 5. jones_adapter applied directly to the propagation routines ---------------------------------------------------
     sizes = [(2, 2), (3, 3), (4, 4), (5, 4), (4, 7), (8, 8), (9, 6), (16, 16), (3, 1), (1, 5)]
     if not ctx.quick:
-        sizes += [(7, 7), (6, 11), (12, 12), (13, 16)]
+        sizes += [(7, 7), (6, 11), (12, 12), (13, 16), (24, 24), (31, 17), (32, 33)]
     k = -1
-    for rep in range(ctx.pick(4, 24)):
+    for rep in range(cnt(4, 200)):
         for shp in sizes:
             for fname in PROP_FUNCS:
                 k += 1
@@ -515,35 +566,385 @@ def _run(ctx):
                         'C20/apply_polarization_optic/elementwise', 'apply_polarization_optic != optic * field[..., None, None]', desc)
 
 
-def _run_monkeypatch(ctx, saved):
-    """add_jones_propagation replaces functions of prysm.propagation globally: exercised last, restored by run()."""
+# ------------------------------------------------------------------------------------------ hardening workloads
+class Tagged:
+    """View of the run context that appends a class label to every violation key and descriptor class going through it."""
+
+    def __init__(self, ctx, suffix):
+        self._ctx = ctx
+        self._suffix = suffix
+
+    def __getattr__(self, k):
+        return getattr(self._ctx, k)
+
+    def violation(self, key, what, desc=None, **detail):
+        self._ctx.violation(key + '/' + self._suffix, what, desc, **detail)
+
+    def case(self, desc, nontrivial=True, cls=None):
+        d = dict(desc)
+        d['phase'] = self._suffix
+        d['class'] = f"{self._suffix}:{d.get('class')}"
+        self._ctx.case(d, nontrivial=nontrivial, cls=cls)
+
+    close = Ctx.close
+    equal = Ctx.equal
+    require = Ctx.require
+    guard = Ctx.guard
+
+
+class phase:
+    """with phase(tagged_ctx, tol): contracts report to the tagged context, the module tolerance is swapped."""
+
+    def __init__(self, ctx, tol):
+        self.ctx, self.tol = ctx, tol
+
+    def __enter__(self):
+        global CTX, TOL
+        self.old = (CTX, TOL)
+        CTX, TOL = self.ctx, self.tol
+        return self.ctx
+
+    def __exit__(self, *a):
+        global CTX, TOL
+        CTX, TOL = self.old
+
+
+def _run_precision(ctx):
+    """Class C: the whole law suite (reduced) with prysm.conf.config.precision = 32 (complex64 elements, complex64 and
+    complex128 inputs), then again under precision 64 at full tolerance: a table built once at 32 bits and kept would poison
+    the second pass.  Runs before everything else so that the 32-bit pass is the first use of every routine in the process."""
+    from ..util import precision
+    from prysm.x import polarization as pol
+    t32, t64 = Tagged(ctx, 'precision=32'), Tagged(ctx, 'after-precision-32')
+    with precision(32), phase(t32, TOL32):
+        ctx.observe('precision32.suite')
+        _run(t32, frac=ctx.pick(0.12, 0.06), label='c20-p32')
+        # mixed dtypes under precision 32: double-precision Jones matrices handed to the conversions
+        g = ctx.rng('c20-p32-mixed')
+        for lead in [(), (3,), (2, 2)]:
+            A, B = rand_c(g, lead + (2, 2)), rand_c(g, lead + (2, 2))
+            desc = {'wl': 'mixed-dtype', 'lead': list(lead), 'input': 'complex128', 'class': 'mueller:complex128-input'}
+            t32.case(desc)
+            with t32.guard('C20/jones_to_mueller', desc):
+                law(t32, 'mueller.multiplicative', pol.jones_to_mueller(A @ B), pol.jones_to_mueller(A) @ pol.jones_to_mueller(B),
+                    'C20/jones_to_mueller/not-multiplicative/broadcast=True', 'M(A B) != M(A) M(B) (complex128 input under precision 32)', desc)
+                c = pol.pauli_coefficients(A)
+                rec = sum(np.asarray(ci)[..., None, None] * pol.pauli_spin_matrix(i, shape=lead if lead != () else None) for i, ci in enumerate(c))
+                law(t32, 'pauli.reconstruct', rec, A, 'C20/pauli/reconstruction', 'sum_i c_i sigma_i != J (complex128 input under precision 32)', desc)
+    with phase(t64, TOL64):
+        ctx.observe('precision32-then-64.suite')
+        _run(t64, frac=ctx.pick(0.12, 0.06), label='c20-p32')     # the same label: the same cases as in the 32-bit pass
+        # mixed dtypes under precision 64: single-precision Jones matrices (float32 tolerance: the data carry 6e-8)
+        g = ctx.rng('c20-p64-mixed')
+        for lead in [(), (3,), (2, 2)]:
+            A, B = rand_c(g, lead + (2, 2)).astype(np.complex64), rand_c(g, lead + (2, 2)).astype(np.complex64)
+            desc = {'wl': 'mixed-dtype', 'lead': list(lead), 'input': 'complex64', 'class': 'mueller:complex64-input'}
+            t64.case(desc)
+            with t64.guard('C20/jones_to_mueller', desc):
+                law(t64, 'mueller.multiplicative', pol.jones_to_mueller(A @ B), pol.jones_to_mueller(A) @ pol.jones_to_mueller(B),
+                    'C20/jones_to_mueller/not-multiplicative/broadcast=True/complex64-input', 'M(A B) != M(A) M(B) (complex64 input)', desc,
+                    tol=TOL32)
+
+
+LAYOUTS = ['C', 'F', 'strided', 'moved-axes']
+
+
+def _lay(a, how):
+    """The same Jones batch (..., 2, 2) in another memory layout."""
+    if how == 'C':
+        return np.ascontiguousarray(a)
+    if how == 'F':
+        return np.asfortranarray(a)
+    if how == 'strided':
+        big = np.zeros(a.shape[:-2] + (4, 6), dtype=a.dtype)
+        big[..., ::2, 1::3] = a
+        return big[..., ::2, 1::3]
+    # matrix axes stored first in memory, leading axes last
+    return np.moveaxis(np.ascontiguousarray(np.moveaxis(a, (-2, -1), (0, 1))), (0, 1), (-2, -1))
+
+
+def _run_repeat(ctx):
+    """Class A: the same array objects (theta grids, retardance arrays, Jones batches) passed again to the same and to other
+    routines of the property; arrays the routines returned edited by the caller before the next call; Jones batches in other
+    memory layouts; angles / shapes in other scalar and container types."""
     from prysm.x import polarization as pol
     from prysm import propagation
-    g = np.random.default_rng(ctx.seed + 17)
-    desc0 = {'wl': 'add_jones_propagation', 'class': 'monkeypatch'}
-    with ctx.guard('C20/add_jones_propagation', desc0):
-        pol.add_jones_propagation()
-        try:
-            for shp in [(4, 4), (5, 6), (8, 8)]:
-                Jf = rand_c(g, shp + (2, 2))
-                A = rand_c(g, shp)
-                calls = {'focus': ((2,), {}), 'unfocus': ((1,), {}), 'angular_spectrum': ((0.6, 0.1, 20.0), {'Q': 2}),
-                         'focus_fixed_sampling': ((0.1, 100.0, 0.5, 3.0, 6), {}),
-                         'unfocus_fixed_sampling': ((3.0, 100.0, 0.5, 0.1, 6), {})}
-                for fname, (args, kw) in calls.items():
-                    desc = {'wl': 'add_jones_propagation', 'fn': fname, 'shape': list(shp), 'class': f'monkeypatch:{fname}'}
-                    ctx.case(desc)
+    rng = ctx.rng('c20-repeat')
+    n = ctx.share(ctx.pick(120, 16000))
+    leads = [(), (1,), (3,), (2, 2), (4, 3), (2, 1, 3), (8, 8)]
+    for it in range(n):
+        sub = ctx.subseed(rng)
+        g = np.random.default_rng(sub)
+        lead = leads[it % len(leads)]
+        layout = LAYOUTS[(it // len(leads)) % len(LAYOUTS)]
+        th, d1, rot = angle(g), angle(g), angle(g)
+        charge = [2, 1, -1, 3, 0.5, 4][it % 6]
+        desc = {'wl': 'repeat', 'lead': list(lead), 'layout': layout, 'theta': th, 'ret': d1, 'charge': charge, 'rotate': rot,
+                'subseed': sub, 'class': f'repeat:lead{len(lead)}d:{layout}'}
+        ctx.case(desc)
+        ctx.observe('repeat.cases')
+        # ---- constructors: what they return belongs to the caller; a second call must not see the caller's edits
+        with ctx.guard('C20/repeat/constructors', desc):
+            shp = lead if lead != () else None
+            ctors = [('jones_rotation_matrix', lambda: pol.jones_rotation_matrix(th, shape=shp)),
+                     ('linear_retarder', lambda: pol.linear_retarder(d1, th, shape=shp)),
+                     ('half_wave_plate', lambda: pol.half_wave_plate(th, shape=shp)),
+                     ('quarter_wave_plate', lambda: pol.quarter_wave_plate(th, shape=shp)),
+                     ('linear_polarizer', lambda: pol.linear_polarizer(th, shape=shp)),
+                     ('linear_diattenuator', lambda: pol.linear_diattenuator(0.37, th, shape=shp)),
+                     ('pauli_spin_matrix', lambda: pol.pauli_spin_matrix(it % 4, shape=shp)),
+                     ('linear_pol_vector', lambda: pol.linear_pol_vector(31.0)),
+                     ('circular_pol_vector', lambda: pol.circular_pol_vector('left' if it % 2 else 'right'))]
+            th_b = th + 0.3
+            others = {'jones_rotation_matrix': lambda: pol.jones_rotation_matrix(th_b, shape=shp),
+                      'linear_retarder': lambda: pol.linear_retarder(d1 + 0.2, th_b, shape=shp),
+                      'half_wave_plate': lambda: pol.half_wave_plate(th_b, shape=shp),
+                      'quarter_wave_plate': lambda: pol.quarter_wave_plate(th_b, shape=shp),
+                      'linear_polarizer': lambda: pol.linear_polarizer(th_b, shape=shp),
+                      'linear_diattenuator': lambda: pol.linear_diattenuator(0.81, th_b, shape=shp),
+                      'pauli_spin_matrix': lambda: pol.pauli_spin_matrix((it + 1) % 4, shape=shp),
+                      'linear_pol_vector': lambda: pol.linear_pol_vector(75.0),
+                      'circular_pol_vector': lambda: pol.circular_pol_vector('right' if it % 2 else 'left')}
+            for nm, f in ctors:
+                r1 = f()
+                keep = np.array(r1)
+                others[nm]()                            # a later call with other arguments must leave the earlier result alone
+                law(ctx, 'repeat.result-survives-later-call', r1, keep, f'C20/{nm}/repeat/result-changed-by-later-call',
+                    f'an array {nm} returned changes when {nm} is called again with other arguments', desc)
+                r1[...] = 7.5 - 2j                      # the caller scribbles over what it was handed
+                r2 = f()
+                law(ctx, 'repeat.result-owned-by-caller', r2, keep, f'C20/{nm}/repeat/after-caller-edits-result',
+                    f'{nm} returns something else after the caller modified the array a previous call returned', desc)
+        # ---- the same theta grid through the vortex retarder and the rotation matrix, twice
+        with ctx.guard('C20/repeat/theta-grid', desc):
+            gshape = lead if lead != () else (3,)
+            theta = g.uniform(-math.pi, math.pi, gshape)
+            theta0 = theta.copy()
+            V1 = np.array(pol.vector_vortex_retarder(charge, theta, d1, rot))
+            R1 = np.array(pol.jones_rotation_matrix(theta, shape=gshape))
+            V2 = pol.vector_vortex_retarder(charge, theta, d1, rot)
+            law(ctx, 'repeat.same-args', V2, V1, 'C20/vector_vortex_retarder/repeat/same-theta-object',
+                'vector_vortex_retarder called twice with the same theta array gives two results', desc)
+            law(ctx, 'vortex.reference', V2, ref_vortex(charge, theta0, d1, rot), 'C20/vector_vortex_retarder/ne-mawet-eq7',
+                'vortex retarder (second call with the same theta array) differs from Mawet et al. eq. 7', desc)
+            law(ctx, 'repeat.same-args', pol.jones_rotation_matrix(theta, shape=gshape), R1,
+                'C20/jones_rotation_matrix/repeat/same-theta-object', 'jones_rotation_matrix called twice with the same theta array gives '
+                'two results', desc)
+            # theta in other dtypes / containers: float32 grid (single-precision data), 0-d array, numpy scalars
+            t32 = theta0.astype(np.float32)
+            law(ctx, 'repeat.argument-forms', pol.vector_vortex_retarder(charge, t32, d1, rot), ref_vortex(charge, t32.astype(float), d1, rot),
+                'C20/vector_vortex_retarder/theta-float32', 'vortex retarder on a float32 theta grid differs from eq. 7 on the same values',
+                desc, tol=TOL32)
+            for form, val in (('numpy-float64', np.float64(th)), ('0-d-array', np.array(th)), ('numpy-float32', np.float32(th))):
+                tl = TOL32 if form == 'numpy-float32' else None
+                want = pol.linear_retarder(d1, float(val))
+                law(ctx, 'repeat.argument-forms', pol.linear_retarder(d1, val), want, f'C20/linear_retarder/theta-as-{form}',
+                    f'linear_retarder(theta as {form}) != linear_retarder(theta as float)', desc, tol=tl)
+                law(ctx, 'repeat.argument-forms', pol.jones_rotation_matrix(val), pol.jones_rotation_matrix(float(val)),
+                    f'C20/jones_rotation_matrix/theta-as-{form}', f'jones_rotation_matrix(theta as {form}) != the float form', desc, tol=tl)
+            if lead != ():
+                want = pol.half_wave_plate(th, shape=lead)
+                for form, val in (('list', list(lead)), ('int-array', np.array(lead, dtype=np.int64))):
+                    law(ctx, 'repeat.argument-forms', pol.half_wave_plate(th, shape=val), want, f'C20/half_wave_plate/shape-as-{form}',
+                        f'half_wave_plate(shape as {form}) != shape as tuple', desc)
+                ret = g.uniform(-2 * math.pi, 2 * math.pi, lead)
+                ret0 = ret.copy()
+                b1 = np.array(pol.linear_retarder(ret, th, shape=lead))
+                b2 = pol.linear_retarder(ret, th, shape=lead)
+                law(ctx, 'repeat.same-args', b2, b1, 'C20/linear_retarder/repeat/same-retardance-object',
+                    'linear_retarder called twice with the same retardance array gives two results', desc)
+                ref = np.empty(lead + (2, 2), dtype=complex)
+                for ix in np.ndindex(*lead):
+                    ref[ix] = pol.linear_retarder(float(ret0[ix]), th)
+                law(ctx, 'element.batched', b2, ref, 'C20/linear_retarder/batched!=per-element/array-retardance',
+                    'linear_retarder(array retardance), second call with the same array != per-element construction', desc)
+        # ---- one Jones batch through every consumer, twice, in the given memory layout
+        with ctx.guard('C20/repeat/jones-batch', desc):
+            A0, B0 = rand_c(g, lead + (2, 2)), rand_c(g, lead + (2, 2))
+            A, B = _lay(A0, layout), _lay(B0, layout)
+            refM = np.empty(lead + (4, 4))
+            kr = np.empty(lead + (4, 4), dtype=complex)
+            for ix in np.ndindex(*lead):
+                refM[ix] = ref_mueller(A0[ix])
+                kr[ix] = np.kron(A0[ix], B0[ix])
+            k1 = pol.broadcast_kron(A, B)
+            m1 = pol.jones_to_mueller(A)
+            m1keep = np.array(m1)
+            pol.broadcast_kron(B, A)
+            pol.jones_to_mueller(B)
+            law(ctx, 'repeat.result-survives-later-call', k1, kr, 'C20/broadcast_kron/repeat/result-changed-by-later-call',
+                'an array broadcast_kron returned changes when broadcast_kron is called again with other arguments', desc)
+            law(ctx, 'repeat.result-survives-later-call', m1, m1keep, 'C20/jones_to_mueller/repeat/result-changed-by-later-call',
+                'a Mueller matrix jones_to_mueller returned changes when jones_to_mueller is called again', desc)
+            for rnd in (0, 1):
+                MA = pol.jones_to_mueller(A)
+                ctx.observe('mueller.reference')
+                sc = max(1.0, maxabs(refM))
+                e = min(maxabs(MA - refM), maxabs(MA - D3 @ refM @ D3)) if MA.shape == refM.shape else float('inf')
+                if not e <= TOL * sc:
+                    ctx.violation('C20/jones_to_mueller/ne-pauli-trace-reference' + ('' if layout == 'C' and rnd == 0 else '/array-reused-or-layout'),
+                                  'M != (1/2) tr(s_i J s_j J^H) in either S3 sign convention (same Jones array passed again / other memory layout)',
+                                  desc, err=e, round=rnd)
+                law(ctx, 'kron.eq-numpy', pol.broadcast_kron(A, B), kr, 'C20/broadcast_kron/ne-numpy-kron',
+                    'broadcast_kron != numpy.kron per element (same arrays passed again / other memory layout)', desc)
+                c = pol.pauli_coefficients(A)
+                rec = sum(np.asarray(ci)[..., None, None] * SIG[i] for i, ci in enumerate(c))
+                law(ctx, 'pauli.reconstruct', rec, A0, 'C20/pauli/reconstruction', 'sum_i c_i sigma_i != J (same array passed again / other '
+                    'memory layout)', desc)
+                MAB = pol.jones_to_mueller(A @ B)
+                law(ctx, 'mueller.multiplicative', MAB, MA @ pol.jones_to_mueller(B), 'C20/jones_to_mueller/not-multiplicative/broadcast=True',
+                    'M(A B) != M(A) M(B) (arrays re-used)', desc)
+                MA[...] = 0.0                         # the caller edits the Mueller matrix it was handed before the next round
+            if len(lead) == 2:
+                fname = PROP_FUNCS[it % len(PROP_FUNCS)]
+                f = getattr(propagation, fname)
+                args, kw = {'focus': ((2,), {}), 'unfocus': ((2,), {}), 'angular_spectrum': ((0.6, 0.1, 15.0), {'Q': 1}),
+                            'focus_fixed_sampling': ((0.1, 100.0, 0.5, 3.0, 5), {}),
+                            'unfocus_fixed_sampling': ((3.0, 100.0, 0.5, 0.1, 5), {})}[fname]
+                try:
+                    with quiet():
+                        comps = [[np.asarray(f(A0[..., i, j].copy(), *args, **kw)) for j in range(2)] for i in range(2)]
+                except Exception as e:
+                    ctx.skip(f'adapter: scalar {fname} itself raises {type(e).__name__} on this input (not a C20 matter)')
+                    comps = None
+                if comps is not None:
+                    ref = np.empty(comps[0][0].shape + (2, 2), dtype=np.result_type(*[c_.dtype for row in comps for c_ in row]))
+                    for i in range(2):
+                        for j in range(2):
+                            ref[..., i, j] = comps[i][j]
+                    ad = pol.jones_adapter(f)
+                    o1 = ad(A, *args, **kw)
+                    ad(B, *args, **kw)
+                    law(ctx, 'repeat.result-survives-later-call', o1, ref, f'C20/jones_adapter/{fname}/result-changed-by-later-call',
+                        f'the field jones_adapter({fname}) returned changes when the adapter is called again with another field', desc)
+                    for rnd in (0, 1):
+                        out = ad(A, *args, **kw)
+                        law(ctx, 'adapter.componentwise', out, ref, f'C20/jones_adapter/{fname}/component-mismatch',
+                            f'jones_adapter({fname})(J)[..., i, j] != {fname}(J[..., i, j]) (same Jones field passed again / other '
+                            'memory layout)', desc)
+                        out[...] = 0.0
+                    field = rand_c(g, lead)
+                    got = pol.apply_polarization_optic(field, A)
+                    got2 = pol.apply_polarization_optic(field, A)
+                    law(ctx, 'apply_polarization_optic.elementwise', got2, A0 * field[..., None, None],
+                        'C20/apply_polarization_optic/elementwise', 'apply_polarization_optic != optic * field[..., None, None] '
+                        '(second call with the same arrays)', desc)
+                    del got
+
+
+def _run_long_history(ctx):
+    """Class D: long call histories.  Each routine that could keep a table between calls is called thousands of times (under
+    precision 64: more than the 2^-1074 underflow horizon of a repeated in-place scaling by 1/sqrt 2, i.e. > 2150 calls; under
+    precision 32: > 300), and the *last* calls are judged."""
+    from ..util import precision
+    from prysm.x import polarization as pol
+    g = ctx.rng('c20-long')
+    for bits, ncall, tag, tol in ((64, ctx.pick(2600, 30000), 'precision=64', TOL64), (32, ctx.pick(700, 10000), 'precision=32', TOL32)):
+        t = Tagged(ctx, 'long-history/' + tag)
+        with precision(bits), phase(t, tol):
+            desc = {'wl': 'long-history', 'calls': ncall, 'bits': bits, 'class': f'history:{tag}'}
+            t.case(desc)
+            ctx.observe('long-history.cases')
+            with t.guard('C20/long-history', desc):
+                A, B = rand_c(g, (2, 2)), rand_c(g, (3, 2, 2))
+                if bits == 32:
+                    A, B = A.astype(np.complex64), B.astype(np.complex64)
+                for i in range(ncall):
+                    MA = pol.jones_to_mueller(A, broadcast=bool(i % 2))
+                    MB = pol.jones_to_mueller(B)
+                    pol.pauli_spin_matrix(i % 4)
+                    pol.jones_rotation_matrix(0.3)
+                    pol.broadcast_kron(B, B)
+                    if i % 97 == 0 or i >= ncall - 3:
+                        refM = ref_mueller(A.astype(complex))
+                        e = min(maxabs(MA - refM), maxabs(MA - D3 @ refM @ D3))
+                        t.require('long-history.mueller', e <= TOL * max(1.0, maxabs(refM)), 'C20/jones_to_mueller/ne-pauli-trace-reference',
+                                  'after a long history of conversions M != (1/2) tr(s_i J s_j J^H)', dict(desc, call=i), err=e)
+                        law(t, 'long-history.mueller', pol.jones_to_mueller(B @ B), MB @ MB, 'C20/jones_to_mueller/not-multiplicative/broadcast=True',
+                            'after a long history of conversions M(A B) != M(A) M(B)', dict(desc, call=i))
+                        law(t, 'long-history.elements', pol.half_wave_plate(0.3) @ pol.half_wave_plate(0.3), I2, 'C20/half_wave_plate/group-law',
+                            'after a long history HWP^2 != I', dict(desc, call=i))
+                        c = pol.pauli_coefficients(A)
+                        rec = sum(np.asarray(ci)[..., None, None] * pol.pauli_spin_matrix(k) for k, ci in enumerate(c))
+                        law(t, 'long-history.elements', rec, A, 'C20/pauli/reconstruction', 'after a long history sum c_i sigma_i != J',
+                            dict(desc, call=i))
+
+
+# step histories of add_jones_propagation: one per shard (the module keeps whatever state the library keeps between calls; the
+# harness never undoes a step in the middle of a history and restores prysm.propagation only at the very end of the run)
+STEP_HISTORIES = [
+    ('all-at-once,again', [None, None]),
+    ('two-steps', [['focus', 'unfocus'], ['focus_fixed_sampling', 'unfocus_fixed_sampling', 'angular_spectrum']]),
+    ('one-at-a-time', [['angular_spectrum'], ['unfocus'], ['focus_fixed_sampling'], ['focus'], ['unfocus_fixed_sampling']]),
+    ('subset,same-subset,rest,default', [['focus_fixed_sampling'], ['focus_fixed_sampling'], ['focus', 'unfocus', 'unfocus_fixed_sampling',
+                                                                                               'angular_spectrum'], None]),
+    ('subset,default', [['unfocus', 'angular_spectrum'], None]),
+    ('overlapping-subsets', [['focus', 'unfocus'], ['unfocus', 'focus_fixed_sampling'], ['focus_fixed_sampling', 'unfocus_fixed_sampling',
+                                                                                          'angular_spectrum']]),
+    ('tuple-then-set', [('focus',), {'unfocus', 'angular_spectrum'}, ['focus_fixed_sampling', 'unfocus_fixed_sampling']]),
+    ('empty-then-all', [[], None]),
+]
+
+
+def _run_monkeypatch(ctx, saved):
+    """add_jones_propagation switches Jones support on in prysm.propagation globally.  Exercised last: one step history per
+    shard; after every step, every routine named so far must be polarisation-aware (component-wise on a Jones field, unchanged
+    on a scalar field).  run() restores the module afterwards."""
+    from prysm.x import polarization as pol
+    from prysm import propagation
+    g = np.random.default_rng(ctx.seed + 17 + ctx.shard)
+    name, steps = STEP_HISTORIES[ctx.shard % len(STEP_HISTORIES)]
+    calls = {'focus': ((2,), {}), 'unfocus': ((1,), {}), 'angular_spectrum': ((0.6, 0.1, 20.0), {'Q': 2}),
+             'focus_fixed_sampling': ((0.1, 100.0, 0.5, 3.0, 6), {}),
+             'unfocus_fixed_sampling': ((3.0, 100.0, 0.5, 0.1, 6), {})}
+    enabled = []
+    for si, step in enumerate(steps):
+        sdesc = {'wl': 'add_jones_propagation', 'history': name, 'step': si, 'funcs_to_change': 'default' if step is None else sorted(step),
+                 'class': f'monkeypatch:{name}'}
+        ok = False
+        with ctx.guard('C20/add_jones_propagation', sdesc):
+            if step is None:
+                pol.add_jones_propagation()
+            else:
+                pol.add_jones_propagation(step)
+            ok = True
+        if not ok:
+            return
+        for fname in (PROP_FUNCS if step is None else sorted(step)):
+            if fname not in enabled:
+                enabled.append(fname)
+        label = 'first-step' if si == 0 else 'later-step'
+        for shp in [(4, 4), (5, 6), (8, 8)][: 3 if si == len(steps) - 1 else 2]:
+            Jf = rand_c(g, shp + (2, 2))
+            A = rand_c(g, shp)
+            for fname in enabled:
+                args, kw = calls[fname]
+                desc = dict(sdesc, fn=fname, shape=list(shp))
+                ctx.case(desc)
+                with quiet():
+                    comps = [[np.asarray(saved[fname](Jf[..., i, j].copy(), *args, **kw)) for j in range(2)] for i in range(2)]
+                    plain = np.asarray(saved[fname](A.copy(), *args, **kw))
+                direct = np.empty(comps[0][0].shape + (2, 2), dtype=np.result_type(*[c.dtype for row in comps for c in row]))
+                for i in range(2):
+                    for j in range(2):
+                        direct[..., i, j] = comps[i][j]
+                with ctx.guard(f'C20/add_jones_propagation/{fname}/{label}/not-polarisation-aware', desc):
                     patched = getattr(propagation, fname)
-                    ctx.require('add_jones_propagation.patched', patched is not saved[fname],
-                                f'C20/add_jones_propagation/{fname}/not-patched', 'add_jones_propagation did not replace the function', desc)
-                    direct = pol.jones_adapter(saved[fname])(Jf, *args, **kw)
                     law(ctx, 'add_jones_propagation.eq-direct', patched(Jf, *args, **kw), direct,
-                        f'C20/add_jones_propagation/{fname}/ne-direct-adapter', 'patched propagation function != jones_adapter(original)', desc)
-                    law(ctx, 'add_jones_propagation.eq-direct', patched(A, *args, **kw), saved[fname](A, *args, **kw),
-                        f'C20/add_jones_propagation/{fname}/scalar-passthrough', 'patched function on a scalar field != original', desc)
-        finally:
-            for k2, v in saved.items():
-                setattr(propagation, k2, v)
+                        f'C20/add_jones_propagation/{fname}/{label}/ne-componentwise',
+                        'after add_jones_propagation named it, the propagation function applied to a Jones field is not the '
+                        'component-by-component propagation', desc)
+                    law(ctx, 'add_jones_propagation.eq-direct', patched(A, *args, **kw), plain,
+                        f'C20/add_jones_propagation/{fname}/{label}/scalar-passthrough', 'patched function on a scalar field != original', desc)
+                    if si:
+                        ctx.observe('add_jones_propagation.later-step')
+
+
+def install_monitors(ctx):
+    """For vp/pytest_monitors.py: the constructor contracts on the repository's own test traffic."""
+    global CTX
+    CTX = ctx
+    install()
 
 
 def replay(ctx, rec):
